@@ -560,7 +560,8 @@ def run(tier, seed):
                 for key, what in judge(rep["progs"], rep["cause"], rep["cut"], res):
                     ck.violation(key, what, replay=rep)
                 if len(traces) < (600 if quick else 6000) and res["outcome"] in ("done", "deadlock"):
-                    traces.append(dict(id="x%d" % n_exec, progs=list(rep["progs"]), cause=rep["cause"],
+                    traces.append(dict(id="x%d" % n_exec, progs=list(rep["progs"]), cause=rep["cause"], cut=rep.get("cut"),
+                                       picks=rep.get("picks"),
                                        ev=[dict(a=e[0], t=e[1], s=e[2], op=e[3], x=str(e[4]))
                                            for e in res["events"]]))
     ck.cover(schedules_executed=n_exec)
